@@ -13,6 +13,9 @@ Phases == {"silent",      \* connected, has not sent a byte (PROXY header / TLS 
            "partial",     \* has sent part of what its first phase needs
            "idle",        \* completed one exchange, connection kept alive
            "inflight",    \* request forwarded, origin answers 400 ms later
+           "earlyreply",  \* an upload (Content-Length 1 000 000, a thousandth of it sent) that the origin has answered on the head
+                          \* alone: the answer is delivered and "the proxy then closes that connection" - without waiting for
+                          \* the rest of a body nobody is going to read
            "pipelined"}   \* request forwarded, the origin answers later with a body of 16 MiB; meanwhile - the shutdown has begun -
                           \* the client sends its next request on the same connection: that one is not served, the answer
                           \* under way is still delivered in full
@@ -31,14 +34,14 @@ Init == /\ phase \in [Phases -> {"absent", "open"}] /\ conns = {p \in Phases : p
 Begin == stage = "serving" /\ stage' = "shutting-down" /\ UNCHANGED <<phase, conns, tracked, served>>
 \* in-flight work finishes; every other connection is closed by the shutdown - or, at some time, by its own limit
 Finish(p) == /\ stage = "shutting-down" /\ p \in conns
-             /\ served' = IF p \in {"inflight", "pipelined"} THEN served \cup {p} ELSE served
+             /\ served' = IF p \in {"inflight", "pipelined", "earlyreply"} THEN served \cup {p} ELSE served
              /\ conns' = conns \ {p} /\ tracked' = tracked \ {p} /\ UNCHANGED <<phase, stage>>
 \* Shutdown / Close only wait for and close what is registered
 Return == stage = "shutting-down" /\ tracked = {} /\ stage' = "returned" /\ UNCHANGED <<phase, conns, tracked, served>>
 Next == Begin \/ Return \/ \E p \in Phases : Finish(p)
 Spec == Init /\ [][Next]_vars /\ WF_vars(Next)
 \* when Run has returned nothing is open and the in-flight exchange was completed
-NothingLeaks == stage = "returned" => conns = {} /\ (\A p \in {"inflight", "pipelined"} : phase[p] = "open" => p \in served)
+NothingLeaks == stage = "returned" => conns = {} /\ (\A p \in {"inflight", "pipelined", "earlyreply"} : phase[p] = "open" => p \in served)
 Returns == <>(stage = "returned")
 
 \* the same at the level of the process (command/run, runctx, shutdown.go): the shutdown is requested by a signal; an idle
